@@ -467,6 +467,7 @@ req_sketch<T, C, A> req_sketch<T, C, A>::deserialize(std::istream& is, const Ser
 
   const bool raw_items = flags_byte & (1 << flags::RAW_ITEMS);
   const bool is_level_0_sorted = flags_byte & (1 << flags::IS_LEVEL_ZERO_SORTED);
+  if (num_levels < 1) throw std::invalid_argument("Possible corruption: a non-empty sketch must have at least one level");
   std::vector<Compactor, AllocCompactor> compactors(allocator);
 
   uint64_t n = 1;
@@ -493,6 +494,7 @@ req_sketch<T, C, A> req_sketch<T, C, A>::deserialize(std::istream& is, const Ser
     const auto begin = compactors[0].begin();
     const auto end = compactors[0].end();
     n = compactors[0].get_num_items();
+    if (n < 1) throw std::invalid_argument("Possible corruption: a non-empty sketch must have at least one item");
     auto min_it = begin;
     auto max_it = begin;
     for (auto it = begin; it != end; ++it) {
@@ -543,6 +545,7 @@ req_sketch<T, C, A> req_sketch<T, C, A>::deserialize(const void* bytes, size_t s
 
   const bool raw_items = flags_byte & (1 << flags::RAW_ITEMS);
   const bool is_level_0_sorted = flags_byte & (1 << flags::IS_LEVEL_ZERO_SORTED);
+  if (num_levels < 1) throw std::invalid_argument("Possible corruption: a non-empty sketch must have at least one level");
   std::vector<Compactor, AllocCompactor> compactors(allocator);
 
   uint64_t n = 1;
@@ -574,6 +577,7 @@ req_sketch<T, C, A> req_sketch<T, C, A>::deserialize(const void* bytes, size_t s
     const auto begin = compactors[0].begin();
     const auto end = compactors[0].end();
     n = compactors[0].get_num_items();
+    if (n < 1) throw std::invalid_argument("Possible corruption: a non-empty sketch must have at least one item");
     auto min_it = begin;
     auto max_it = begin;
     for (auto it = begin; it != end; ++it) {
